@@ -33,7 +33,7 @@ func c05ReadEntries(data []byte) []zipuEntry {
 		}
 		c, _ := io.ReadAll(rc)
 		rc.Close()
-		es = append(es, zipuEntry{zf.Name, zf.UncompressedSize64, c})
+		es = append(es, zipuEntry{name: zf.Name, decl: zf.UncompressedSize64, content: c})
 	}
 	return es
 }
